@@ -59,5 +59,25 @@ Theorem C15_curved :
   (forall od radius, (- od / 2 - radius) + (od / 2 + radius) = 0).
 Proof. exact (conj pipe_curved_shape curved_starts_at_origin). Qed.
 
+(* curved, semantically (Parts/Sem.v): everything the wrapper places sits under translate * rotate([90,0,0]) with the
+   section translated by od/2 + radius inside the rotate_extrude; that composition carries the section's own origin
+   (its centre) to the origin of the part, for every od and radius *)
+Theorem C15_curved_section_centre_on_origin :
+  (forall od degrees radius fn_ (section : scad R text),
+     flatten mt4_identity [] (curved_wrap od degrees radius fn_ section) =
+     flatten (mt4_mul (mt4_mul mt4_identity (mt4_translate_matrix (- od / 2 - radius) 0 0))
+                      (mt4_mul (mt4_rot_z_matrix 0) (mt4_mul (mt4_rot_y_matrix 0) (mt4_rot_x_matrix 90)))) []
+             (Node (RotateExtrude degrees 4%N None None (Some (Z.to_N fn_)))
+                   [Node (Translate (P3 (od / 2 + radius) 0 0)) [section]])) /\
+  (forall od radius,
+     mt4_mul_pt4 (mt4_mul (mt4_mul mt4_identity (mt4_translate_matrix (- od / 2 - radius) 0 0))
+                          (mt4_mul (mt4_rot_z_matrix 0) (mt4_mul (mt4_rot_y_matrix 0) (mt4_rot_x_matrix 90))))
+                 (mt4_mul_pt4 (mt4_translate_matrix (od / 2 + radius) 0 0) (Pt4 0 0 0 1)) = Pt4 0 0 0 1).
+Proof.
+  split; [|exact curved_centre_lands_on_origin].
+  intros od degrees radius fn_ section. destruct (curved_placed od degrees radius fn_ section) as [_ [inner [Hf Hi]]].
+  rewrite Hf, Hi. reflexivity.
+Qed.
+
 Example C15_nonvacuous : 0 < 10 - 1 * 2 /\ 0 < 90 <= 360.
 Proof. Lra.lra. Qed.
